@@ -44,7 +44,9 @@ Qed.
 Lemma take_split n l a r : take n l = Some (a, r) ->
   l = a ++ r /\ length a = N.to_nat n /\ (n <= blen l)%N.
 Proof.
-  unfold take. destruct l as [|x l']; [discriminate|].
+  unfold take. destruct (N.eqb_spec n 0) as [->|Hn0].
+  { intros [= <- <-]. cbn [app length N.to_nat]. split; [reflexivity|]. split; [reflexivity|]. unfold blen. lia. }
+  destruct l as [|x l']; [discriminate|].
   destruct (N.ltb_spec (blen (x :: l')) n) as [H|H]; [discriminate|].
   intros [= <- <-]. rewrite firstn_skipn. split; [reflexivity|]. split; [|assumption].
   apply firstn_length_le. unfold blen in H. lia.
